@@ -1,0 +1,350 @@
+//go:build verif
+
+package raft
+
+import (
+	"bytes"
+	"sort"
+	"time"
+
+	pb "github.com/jmsadair/raft/internal/protobuf"
+	"google.golang.org/protobuf/proto"
+)
+
+// This file is only compiled with the "verif" build tag. It gives the external
+// verification harness (/verif) white-box access to the protocol state of a node
+// so that single critical sections can be exercised from arbitrary states. It adds
+// code only; nothing in the library calls it.
+
+// VerifFollower mirrors the per-follower replication state kept by a leader.
+type VerifFollower struct {
+	NextIndex    uint64
+	MatchIndex   uint64
+	SnapshotOpen bool
+}
+
+// VerifPendingRead describes one pending read-only operation.
+type VerifPendingRead struct {
+	Bytes          []byte
+	OperationType  OperationType
+	ReadIndex      uint64
+	QuorumVerified bool
+}
+
+// VerifState is a copy of the protocol-relevant state of a node.
+type VerifState struct {
+	State                  State
+	CurrentTerm            uint64
+	VotedFor               string
+	LeaderID               string
+	CommitIndex            uint64
+	LastApplied            uint64
+	LastIncludedIndex      uint64
+	LastIncludedTerm       uint64
+	Configuration          *Configuration
+	CommittedConfiguration *Configuration
+	LastContact            time.Time
+	LeaseExpiration        time.Time
+	ShouldVerifyQuorum     bool
+	Followers              map[string]VerifFollower
+	PendingReplicated      []uint64
+	PendingReadOnly        []VerifPendingRead
+	SnapshotOpen           bool
+	SnapshotMetadata       SnapshotMetadata
+	ConfigurationPending   bool
+	ConfigurationWaitIndex uint64
+}
+
+func verifCloneConfiguration(c *Configuration) *Configuration {
+	if c == nil {
+		return nil
+	}
+	clone := c.Clone()
+	return &clone
+}
+
+// VerifGetState returns a copy of the protocol state of this node.
+func (r *Raft) VerifGetState() VerifState {
+	r.mu.Lock()
+	defer r.mu.Unlock()
+
+	s := VerifState{
+		State:                  r.state,
+		CurrentTerm:            r.currentTerm,
+		VotedFor:               r.votedFor,
+		LeaderID:               r.leaderID,
+		CommitIndex:            r.commitIndex,
+		LastApplied:            r.lastApplied,
+		LastIncludedIndex:      r.lastIncludedIndex,
+		LastIncludedTerm:       r.lastIncludedTerm,
+		Configuration:          verifCloneConfiguration(r.configuration),
+		CommittedConfiguration: verifCloneConfiguration(r.committedConfiguration),
+		LastContact:            r.lastContact,
+		LeaseExpiration:        r.operationManager.leaderLease.expiration,
+		ShouldVerifyQuorum:     r.operationManager.shouldVerifyQuorum,
+		Followers:              make(map[string]VerifFollower, len(r.followers)),
+		SnapshotOpen:           r.snapshot != nil,
+		ConfigurationPending:   r.configurationResponseCh != nil,
+		ConfigurationWaitIndex: r.configurationResponseIndex,
+	}
+	for id, f := range r.followers {
+		s.Followers[id] = VerifFollower{
+			NextIndex:    f.nextIndex,
+			MatchIndex:   f.matchIndex,
+			SnapshotOpen: f.snapshot != nil,
+		}
+	}
+	for index := range r.operationManager.pendingReplicated {
+		s.PendingReplicated = append(s.PendingReplicated, index)
+	}
+	sort.Slice(s.PendingReplicated, func(i, j int) bool {
+		return s.PendingReplicated[i] < s.PendingReplicated[j]
+	})
+	for operation := range r.operationManager.pendingReadOnly {
+		s.PendingReadOnly = append(s.PendingReadOnly, VerifPendingRead{
+			Bytes:          operation.Bytes,
+			OperationType:  operation.OperationType,
+			ReadIndex:      operation.readIndex,
+			QuorumVerified: operation.quorumVerified,
+		})
+	}
+	if r.snapshot != nil {
+		s.SnapshotMetadata = r.snapshot.Metadata()
+	}
+	return s
+}
+
+// VerifSetState overwrites the protocol state of this node. Pending operations,
+// open snapshot files and the membership future are not touched. The followers
+// map is replaced when s.Followers is not nil.
+func (r *Raft) VerifSetState(s VerifState) {
+	r.mu.Lock()
+	defer r.mu.Unlock()
+
+	r.state = s.State
+	r.currentTerm = s.CurrentTerm
+	r.votedFor = s.VotedFor
+	r.leaderID = s.LeaderID
+	r.commitIndex = s.CommitIndex
+	r.lastApplied = s.LastApplied
+	r.lastIncludedIndex = s.LastIncludedIndex
+	r.lastIncludedTerm = s.LastIncludedTerm
+	r.configuration = verifCloneConfiguration(s.Configuration)
+	r.committedConfiguration = verifCloneConfiguration(s.CommittedConfiguration)
+	r.lastContact = s.LastContact
+	r.operationManager.leaderLease.expiration = s.LeaseExpiration
+	r.operationManager.shouldVerifyQuorum = s.ShouldVerifyQuorum
+	if s.Followers != nil {
+		r.followers = make(map[string]*follower, len(s.Followers))
+		for id, f := range s.Followers {
+			r.followers[id] = &follower{nextIndex: f.NextIndex, matchIndex: f.MatchIndex}
+		}
+	}
+}
+
+// VerifElection runs the body of one election loop iteration.
+func (r *Raft) VerifElection() {
+	r.mu.Lock()
+	defer r.mu.Unlock()
+	r.election()
+}
+
+// VerifHasQuorum evaluates the quorum predicate under the current configuration.
+func (r *Raft) VerifHasQuorum(count int) bool {
+	r.mu.Lock()
+	defer r.mu.Unlock()
+	return r.hasQuorum(count)
+}
+
+// VerifSignal wakes the named internal loop ("commit", "apply", "readonly",
+// "election", "snapshot") exactly as the library does.
+func (r *Raft) VerifSignal(loop string) {
+	r.mu.Lock()
+	defer r.mu.Unlock()
+	switch loop {
+	case "commit":
+		r.commitCond.Broadcast()
+	case "apply":
+		r.applyCond.Broadcast()
+	case "readonly":
+		r.readOnlyCond.Broadcast()
+	case "election":
+		r.electionCond.Broadcast()
+	case "snapshot":
+		r.snapshotCond.Broadcast()
+	}
+}
+
+// VerifHeartbeat does what one iteration of the heartbeat loop does.
+func (r *Raft) VerifHeartbeat() {
+	r.mu.Lock()
+	defer r.mu.Unlock()
+	if r.state == Shutdown || r.state == Follower {
+		return
+	}
+	r.sendAppendEntriesToPeers()
+}
+
+// VerifLog returns the log used by this node.
+func (r *Raft) VerifLog() Log {
+	return r.log
+}
+
+// VerifLeaseRenew and VerifLeaseValid expose the lease arithmetic.
+func VerifLeaseRenewValid(duration time.Duration, advance func(time.Duration), waits []time.Duration) []bool {
+	l := newLease(duration)
+	out := []bool{l.isValid()}
+	l.renew()
+	for _, w := range waits {
+		advance(w)
+		out = append(out, l.isValid())
+	}
+	return out
+}
+
+// VerifEncodeLogEntry encodes one log record exactly as the log file does.
+func VerifEncodeLogEntry(entry *LogEntry) ([]byte, error) {
+	var buf bytes.Buffer
+	if err := encodeLogEntry(&buf, entry); err != nil {
+		return nil, err
+	}
+	return buf.Bytes(), nil
+}
+
+// VerifDecodeLogEntry decodes one log record.
+func VerifDecodeLogEntry(data []byte) (LogEntry, error) {
+	return decodeLogEntry(bytes.NewReader(data))
+}
+
+// VerifEncodeState encodes a term/vote record exactly as the state file does.
+func VerifEncodeState(term uint64, votedFor string) ([]byte, error) {
+	var buf bytes.Buffer
+	if err := encodePersistentState(&buf, &persistentState{term: term, votedFor: votedFor}); err != nil {
+		return nil, err
+	}
+	return buf.Bytes(), nil
+}
+
+// VerifDecodeState decodes a term/vote record.
+func VerifDecodeState(data []byte) (uint64, string, error) {
+	state, err := decodePersistentState(bytes.NewReader(data))
+	return state.term, state.votedFor, err
+}
+
+// VerifEncodeMetadata / VerifDecodeMetadata expose the snapshot metadata codec.
+func VerifEncodeMetadata(metadata *SnapshotMetadata) ([]byte, error) {
+	var buf bytes.Buffer
+	if err := encodeMetadata(&buf, metadata); err != nil {
+		return nil, err
+	}
+	return buf.Bytes(), nil
+}
+
+// VerifDecodeMetadata decodes snapshot metadata.
+func VerifDecodeMetadata(data []byte) (SnapshotMetadata, error) {
+	return decodeMetadata(bytes.NewReader(data))
+}
+
+// The Verif*Wire functions push a message through exactly the conversions and the
+// protobuf (un)marshalling that the bundled transport applies on the sending and on
+// the receiving side, without the network. They return the bytes on the wire and the
+// message as the receiving handler would see it.
+
+func VerifAppendEntriesRequestWire(request AppendEntriesRequest) ([]byte, AppendEntriesRequest, error) {
+	data, err := proto.Marshal(makeProtoAppendEntriesRequest(request))
+	if err != nil {
+		return nil, AppendEntriesRequest{}, err
+	}
+	received := &pb.AppendEntriesRequest{}
+	if err := proto.Unmarshal(data, received); err != nil {
+		return data, AppendEntriesRequest{}, err
+	}
+	return data, makeAppendEntriesRequest(received), nil
+}
+
+func VerifAppendEntriesResponseWire(response AppendEntriesResponse) ([]byte, AppendEntriesResponse, error) {
+	data, err := proto.Marshal(makeProtoAppendEntriesResponse(response))
+	if err != nil {
+		return nil, AppendEntriesResponse{}, err
+	}
+	received := &pb.AppendEntriesResponse{}
+	if err := proto.Unmarshal(data, received); err != nil {
+		return data, AppendEntriesResponse{}, err
+	}
+	return data, makeAppendEntriesResponse(received), nil
+}
+
+func VerifRequestVoteRequestWire(request RequestVoteRequest) ([]byte, RequestVoteRequest, error) {
+	data, err := proto.Marshal(makeProtoRequestVoteRequest(request))
+	if err != nil {
+		return nil, RequestVoteRequest{}, err
+	}
+	received := &pb.RequestVoteRequest{}
+	if err := proto.Unmarshal(data, received); err != nil {
+		return data, RequestVoteRequest{}, err
+	}
+	return data, makeRequestVoteRequest(received), nil
+}
+
+func VerifRequestVoteResponseWire(response RequestVoteResponse) ([]byte, RequestVoteResponse, error) {
+	data, err := proto.Marshal(makeProtoRequestVoteResponse(response))
+	if err != nil {
+		return nil, RequestVoteResponse{}, err
+	}
+	received := &pb.RequestVoteResponse{}
+	if err := proto.Unmarshal(data, received); err != nil {
+		return data, RequestVoteResponse{}, err
+	}
+	return data, makeRequestVoteResponse(received), nil
+}
+
+func VerifInstallSnapshotRequestWire(request InstallSnapshotRequest) ([]byte, InstallSnapshotRequest, error) {
+	data, err := proto.Marshal(makeProtoInstallSnapshotRequest(request))
+	if err != nil {
+		return nil, InstallSnapshotRequest{}, err
+	}
+	received := &pb.InstallSnapshotRequest{}
+	if err := proto.Unmarshal(data, received); err != nil {
+		return data, InstallSnapshotRequest{}, err
+	}
+	return data, makeInstallSnapshotRequest(received), nil
+}
+
+func VerifInstallSnapshotResponseWire(response InstallSnapshotResponse) ([]byte, InstallSnapshotResponse, error) {
+	data, err := proto.Marshal(makeProtoInstallSnapshotResponse(response))
+	if err != nil {
+		return nil, InstallSnapshotResponse{}, err
+	}
+	received := &pb.InstallSnapshotResponse{}
+	if err := proto.Unmarshal(data, received); err != nil {
+		return data, InstallSnapshotResponse{}, err
+	}
+	return data, makeInstallSnapshotResponse(received), nil
+}
+
+// VerifDecodeAppendEntriesRequest decodes wire bytes the way the receiving side does.
+func VerifDecodeAppendEntriesRequest(data []byte) (AppendEntriesRequest, error) {
+	received := &pb.AppendEntriesRequest{}
+	if err := proto.Unmarshal(data, received); err != nil {
+		return AppendEntriesRequest{}, err
+	}
+	return makeAppendEntriesRequest(received), nil
+}
+
+// VerifDecodeRequestVoteRequest decodes wire bytes the way the receiving side does.
+func VerifDecodeRequestVoteRequest(data []byte) (RequestVoteRequest, error) {
+	received := &pb.RequestVoteRequest{}
+	if err := proto.Unmarshal(data, received); err != nil {
+		return RequestVoteRequest{}, err
+	}
+	return makeRequestVoteRequest(received), nil
+}
+
+// VerifDecodeInstallSnapshotRequest decodes wire bytes the way the receiving side does.
+func VerifDecodeInstallSnapshotRequest(data []byte) (InstallSnapshotRequest, error) {
+	received := &pb.InstallSnapshotRequest{}
+	if err := proto.Unmarshal(data, received); err != nil {
+		return InstallSnapshotRequest{}, err
+	}
+	return makeInstallSnapshotRequest(received), nil
+}
